@@ -23,6 +23,7 @@ pub struct Mirror {
     pub assertions: Vec<(String, String, String)>,   // id, proposition id, status
     pub evidence: Vec<(String, String)>,             // id, status
     pub activities: Vec<(String, String)>,           // id, status
+    pub all: Vec<(String, &'static str, String, u64)>, // id, kind, engine state, version
 }
 
 impl Mirror {
@@ -33,6 +34,7 @@ impl Mirror {
             if e.state == "pending" {
                 continue;
             }
+            m.all.push((e.id.clone(), e.kind, e.state.clone(), e.version));
             match e.kind {
                 "concept" => {
                     if s("schema_ref").ends_with("/Person") {
@@ -70,6 +72,10 @@ pub struct Gen {
     /// probability (percent) that a block gets a fault injected
     pub fault_pct: u64,
     pub dry_pct: u64,
+    /// percent of statements that are a lifecycle operation on an existing element of any kind
+    pub lifecycle_pct: u64,
+    /// percent of statements that are a PURGE (0 for the C17 histories: the monitor's log is append-only)
+    pub purge_pct: u64,
 }
 
 struct Block {
@@ -98,16 +104,20 @@ impl Block {
 
 impl Gen {
     pub fn new(rng: Rng, fault_pct: u64, dry_pct: u64) -> Gen {
-        Gen { rng, n: 0, fault_pct, dry_pct }
+        Gen { rng, n: 0, fault_pct, dry_pct, lifecycle_pct: 12, purge_pct: 0 }
     }
 
     pub fn next(&mut self, m: &Mirror) -> Stmt {
         self.n += 1;
         let r = self.rng.below(100);
         let empty = m.persons.is_empty();
-        let mut s = if empty || r < 40 {
+        let mut s = if !empty && r < self.purge_pct {
+            self.purge(m)
+        } else if !empty && r < self.purge_pct + self.lifecycle_pct {
+            self.lifecycle(m)
+        } else if empty || r < 45 {
             self.block(m, false)
-        } else if r < 55 {
+        } else if r < 60 {
             self.block(m, true)
         } else {
             self.single(m)
@@ -262,6 +272,9 @@ impl Gen {
 
     /// A mutation of an existing element, as a clause.
     fn existing_clause(&mut self, b: &mut Block, m: &Mirror, fail: bool) -> bool {
+        if self.rng.chance(1, 3) {
+            return self.lifecycle_clause(b, m, fail);
+        }
         match self.rng.below(6) {
             0 if !m.persons.is_empty() => {
                 let p = self.rng.pick(&m.persons).clone();
@@ -444,6 +457,68 @@ impl Gen {
         }
         let text = format!("MUTATE {{\n  {}\n}}", b.clauses.join("\n  "));
         Stmt { text, params: if b.params.is_empty() { None } else { Some(Value::Object(b.params)) }, dry: false, tag }
+    }
+
+    /// ARCHIVE / TOMBSTONE / RETRACT of an existing element of ANY kind, propositions first.
+    fn lifecycle_clause(&mut self, b: &mut Block, m: &Mirror, fail: bool) -> bool {
+        if m.all.is_empty() {
+            return false;
+        }
+        let want = *self.rng.pick(&["proposition", "proposition", "proposition", "assertion", "assertion", "evidence", "activity", "concept", "concept"]);
+        let pool: Vec<&(String, &'static str, String, u64)> = m.all.iter().filter(|e| e.1 == want).collect();
+        let e = if pool.is_empty() { self.rng.pick(&m.all).clone() } else { (*self.rng.pick(&pool)).clone() };
+        let st = if fail { if e.2 == "active" { "archived".to_string() } else { "active".to_string() } } else { e.2.clone() };
+        let guard = if fail || self.rng.chance(1, 3) { format!(r#" EXPECT STATE "{st}""#) } else { String::new() };
+        if e.1 == "assertion" && !fail && self.rng.chance(1, 3) {
+            b.clauses.push(format!(r#"RETRACT ASSERTION "{}""#, e.0));
+            b.tag.push("retract");
+            return true;
+        }
+        let verb = if self.rng.chance(3, 5) { "ARCHIVE" } else { "TOMBSTONE" };
+        b.clauses.push(format!(r#"{verb} "{}"{guard}"#, e.0));
+        b.tag.push(match (verb, e.1) {
+            ("ARCHIVE", "proposition") => "archive-proposition",
+            ("TOMBSTONE", "proposition") => "tombstone-proposition",
+            ("ARCHIVE", "assertion") => "archive-assertion",
+            ("TOMBSTONE", "assertion") => "tombstone-assertion",
+            ("ARCHIVE", "evidence") => "archive-evidence",
+            ("TOMBSTONE", "evidence") => "tombstone-evidence",
+            ("ARCHIVE", "activity") => "archive-activity",
+            ("TOMBSTONE", "activity") => "tombstone-activity",
+            ("ARCHIVE", _) => "archive-concept",
+            _ => "tombstone-concept",
+        });
+        true
+    }
+
+    fn empty_block() -> Block {
+        Block { clauses: vec![], params: Map::new(), persons: vec![], concepts: vec![], props: vec![], evid: vec![], tuples: vec![], tag: vec![], h: 0 }
+    }
+
+    fn lifecycle(&mut self, m: &Mirror) -> Stmt {
+        let mut b = Self::empty_block();
+        let fail = self.rng.below(100) < self.fault_pct;
+        let n = 1 + self.rng.below(2);
+        for _ in 0..n {
+            self.lifecycle_clause(&mut b, m, false);
+        }
+        if fail {
+            self.lifecycle_clause(&mut b, m, true);
+        }
+        if b.clauses.is_empty() {
+            return self.block(m, false);
+        }
+        let text = if b.clauses.len() == 1 { b.clauses[0].clone() } else { format!("MUTATE {{\n  {}\n}}", b.clauses.join("\n  ")) };
+        Stmt { text, params: None, dry: false, tag: format!("lifecycle:{}{}", b.tag.join(":"), if fail { ":guard-fails" } else { "" }) }
+    }
+
+    fn purge(&mut self, m: &Mirror) -> Stmt {
+        let e = self.rng.pick(&m.all).clone();
+        let policy = match self.rng.below(3) {
+            0 => r#" REFERENCE POLICY "deny_if_referenced""#,
+            _ => "",
+        };
+        Stmt { text: format!(r#"PURGE "{}"{policy} CONFIRM "PURGE""#, e.0), params: None, dry: false, tag: format!("purge:{}", e.1) }
     }
 
     fn single(&mut self, m: &Mirror) -> Stmt {
